@@ -19,7 +19,7 @@ NA = {
 CHECKS = {
 "C07": dict(cat="exploration", ref="§6 C07",
   text="Seeded search over call histories on one long-lived simulated caller thread; every call's full result digest (text, every origin, define table, tree with offsets, or error) must equal the same call on a fresh thread against the same file-system snapshot. Sampling, not proof: evidence reports histories run, residue/address-reuse probes and fault kinds fired.",
-  note="Trusts: hooks faithful (repo tests pass guard on/off); slot device decides address reuse for caller-owned texts only; library-internal RandomState unseeded; digests cover what the public API exposes.",
+  note="Trusts: hooks faithful (repo tests pass guard on/off); slot device decides address reuse (same address, same length, adjacent slices) for caller-owned texts only; references run in pristine child processes, so process-wide state is visible; library-internal RandomState unseeded; digests cover what the public API exposes.",
   tech="deterministic simulation: seeded call histories vs fresh-thread reference, simulated file system with per-call fault plan"),
 "C08": dict(cat="fault_enumeration", ref="§6 C08",
   text="Per base scenario (valid multi-file program, repo preprocessor testcase over its directory, corpus snippet, mutated or token-soup text) the file-system fault space is enumerated: quick samples 24 fault sets per scenario, thorough executes EVERY single fault (each file x open errors, truncation at every byte offset, 12 corrupting bytes at every offset, EIO at 17 offsets, TOCTOU on probes) plus transparent-fault and string-entry controls; every Ok tree is iterated, formatted and converted node by node. Oracle: no panic / process death, and the Err shape the statement prescribes for missing and non-UTF-8 files, derived from the simulated file system's own event log.",
@@ -38,11 +38,11 @@ CHECKS = {
   note="Trusts: the nom-packrat fork is upstream code plus knobs; only whole-call FIFO capacities are explored; step budgets bound memo-starved parses (counted as budget_skipped); a divergence whose discriminator exhausts its budget is 'unattributed' and does not fail the check.",
   tech="deterministic simulation: randomised tuning knob (memo capacity) with hit/miss/eviction probes, differential against the shipped configuration, flag-aware-key discriminator for the known finding"),
 "C19": dict(cat="exploration", ref="§6 C19",
-  text="Seeded search over interleavings of 2-4 simulated caller threads (real OS threads parked and released one at a time at every grammar terminal, parser-state mutation and file operation; random, PCT and mutation-biased policies); every call must return what it returns when its thread's program runs alone. Failing schedules are frozen to an explicit switch list and minimised.",
+  text="Seeded search over interleavings of 2-4 simulated caller threads (real OS threads parked and released one at a time at every grammar terminal, parser-state mutation and file operation; random, PCT and mutation-biased policies); every call must return what it returns when its thread's program runs alone. Failing schedules are frozen to an explicit switch list and minimised. Half of the runs give every thread its own project with equal header names; 1/8 of the runs are a free-running supplement (threads released together, interleaving NOT decided, statistical replay) for changes that bring their own blocking synchronisation.",
   note="Trusts: hooks faithful; every write to thread-local parser state is preceded by a yield point; the scheduler serialises execution, so data-race UB itself (as opposed to its logical effect) is not observable.",
   tech="deterministic simulation: seeded baton scheduler over real threads, recorded/replayable switch lists, solo-run reference"),
 "C20": dict(cat="exploration", ref="§6 C20",
-  text="Seeded search over programs on the simulated file system x flag combinations; the file, string and two-step entry points of a group must return identical digests while the file side receives its bytes through short reads and EINTR and all calls meet the same missing/non-UTF-8 includes.",
+  text="Seeded search over programs on the simulated file system x flag combinations; the file, string and two-step entry points of a group must return identical digests while the file side receives its bytes through short reads and EINTR and all calls meet the same missing/non-UTF-8 includes. Families: each call in its own pristine process; the whole group on one thread of one process before and after the files are rewritten; include chains of depth 60..68; byte-level variants of the top file (BOM, CRLF, no final newline).",
   note="Trusts: hooks faithful; Vfs read semantics model POSIX read(2); each call on a fresh thread so C07 effects are excluded.",
   tech="deterministic simulation: differential entry-point groups over a simulated file system with transparent I/O fault injection"),
 }
@@ -74,7 +74,7 @@ def main():
        "add_only":False
      },
      "engines":[{"name":"svsim","path":"/verif/sim","serves_properties":sorted(CHECKS.keys()),
-       "kind_free_text":"deterministic simulator: real library code on parked OS threads under a seeded baton scheduler, simulated file system with fault plan, memo-capacity knob, explicit replayable scenarios, worker processes for crash containment"}],
+       "kind_free_text":"deterministic simulator: real library code on parked OS threads under a seeded baton scheduler, simulated file system with fault plan, memo-capacity knob through an instrumented nom-packrat fork, explicit replayable scenarios, one pristine child process per execution (crash containment, process-level references)"}],
      "checks":checks,
      "notes":"bin/check rebuilds svsim (path dependencies on /repo, hooks on) before every run. Exit 0 held, 1 violation (VIOLATION line + replay file), 2 harness error / no verdict. Known findings: /verif/known_findings.txt. Sensitivity mutants: /verif/mutants, /verif/seeded.",
      "not_applicable":na,
